@@ -85,8 +85,8 @@ func coldStatCase(c Conf, u []hs.Blob, n int) (class, detail string, err error) 
 				}
 				continue
 			}
-			if waited > 240 {
-				return "timeout", fmt.Sprintf("client.StatBlobs(%d refs) did not return within 120s (%d requests served)", n, atomic.LoadInt64(&s.Served)-before), nil
+			if waited > 1200 {
+				return "timeout", fmt.Sprintf("client.StatBlobs(%d refs) did not return within 600s (%d requests served)", n, atomic.LoadInt64(&s.Served)-before), nil
 			}
 		}
 	}
@@ -134,8 +134,12 @@ func runCold(res *vk.Result, confs []Conf, only string, onlyN int) {
 	sc := res.Scenario("client-cold-stat")
 	sc.Bound = fmt.Sprintf("per configuration: first call of a fresh pkg/client is StatBlobs over n refs, n in %v, server holds the 3-blob universe", coldSizes())
 	u := universe()
+	sizes := coldSizes()
+	if only != "" {
+		sizes = []int{onlyN}
+	}
 	for i, c := range confs {
-		for j, n := range coldSizes() {
+		for j, n := range sizes {
 			if only != "" {
 				if c.Name() != only || n != onlyN {
 					continue
